@@ -270,6 +270,45 @@ def main(tier, seed, replay):
                 continue
             qok.append((idx, g.q_statement(idx, e, tgt, comp), full, tgt, comp, vals))
             idx += 1
+        # mpz-valued accessors of an mpq_class inside expressions assigned to (possibly the same) mpq_class: partial aliasing
+        QT = [
+            ("{t} = {x}.get_den() * 3", lambda t, x, y: Fraction(x.denominator * 3)),
+            ("{t} = {x}.get_num() + {y}.get_den()", lambda t, x, y: Fraction(x.numerator + y.denominator)),
+            ("{t} = {y} * ({x}.get_den() + 1)", lambda t, x, y: y * (x.denominator + 1)),
+            ("{t} = {y} / ({x}.get_den() + 2)", lambda t, x, y: y / (x.denominator + 2)),
+            ("{t} = {x}.get_num() * {x}.get_den()", lambda t, x, y: Fraction(x.numerator * x.denominator)),
+            ("{t} = {x}.get_den() - {y}.get_num()", lambda t, x, y: Fraction(x.denominator - y.numerator)),
+            ("{t} = ({x}.get_den() * {y}.get_den()) + {y}", lambda t, x, y: x.denominator * y.denominator + y),
+            ("{t} += {x}.get_den()", lambda t, x, y: t + x.denominator),
+            ("{t} *= {x}.get_den() - 2", lambda t, x, y: t * (x.denominator - 2)),
+            ("{t} -= {x}.get_num() * {y}.get_den()", lambda t, x, y: t - x.numerator * y.denominator),
+            ("{t} = -{x}.get_den()", lambda t, x, y: Fraction(-x.denominator)),
+            ("{t} = abs({x}.get_num()) + {x}", lambda t, x, y: abs(x.numerator) + x),
+            ("{t} = {x}.get_den() << 3", lambda t, x, y: Fraction(x.denominator << 3)),
+            ("{t} = mpq_class({x}.get_den(), {x}.get_den() + 1)", None),
+        ]
+        names = "abc"
+        for tmpl, fn_ in QT:
+            if fn_ is None:
+                continue
+            for ti in range(3):
+                for xi in range(3):
+                    for yi in range(3):
+                        if "{y}" not in tmpl and yi:
+                            continue
+                        vals = []
+                        ok = True
+                        for rd in g.QROUNDS:
+                            try:
+                                vals.append(fn_(rd[ti], rd[xi], rd[yi]))
+                            except ZeroDivisionError:
+                                ok = False
+                        if not ok:
+                            continue
+                        text = tmpl.format(t=names[ti], x=names[xi], y=names[yi])
+                        src = "{ mpq_class sv(%s); %s; out_q(%d, rd, %s.get_mpq_t(), %s.get_mpq_t()); %s = sv; }" % (names[ti], text, idx, names[ti], names[ti], names[ti])
+                        qok.append((idx, src, None, names[ti], text, vals))
+                        idx += 1
         per_tu = 1500
         jobs = []
         for i in range(0, len(zok), per_tu):
@@ -360,7 +399,7 @@ def main(tier, seed, replay):
 def _descr(st):
     idx, src, full, tgt, comp, vals = st
     if full is None:
-        return "%s on %s" % (comp, tgt)
+        return "%s (target %s)" % (comp, tgt)
     return "%s %s= %s" % (tgt, comp or "", g.cxx(full if comp is None else full.args[1]))
 
 
